@@ -73,6 +73,9 @@ type c06obs struct {
 }
 
 func c06History(ctx context.Context, run *common.Run, obs *c06obs, idx int) {
+	if run.Saturated() {
+		return
+	}
 	rng := common.Rng(run.Seed, int64(600000+idx))
 	regimeShort := idx%2 == 1
 	T := time.Hour
@@ -456,6 +459,9 @@ func min3(n int) int {
 // end-to-end: several real nodes share one TxManager; scripted peers announce and deliver the
 // same transactions at the same time.
 func c06EndToEnd(ctx context.Context, run *common.Run, obs *c06obs, idx int) {
+	if run.Saturated() {
+		return
+	}
 	rng := common.Rng(run.Seed, int64(650000+idx))
 	n := 2 + rng.Intn(3)
 	tm := bitcoin_reader.NewTxManager(time.Hour)
